@@ -75,6 +75,12 @@ _DISP = "impl ::core::fmt::Display for Sx { fn fmt(&self, f: &mut ::core::fmt::F
 EXTRA_USAGE = {
     "Sum": ["#[derive(derive_more::Sum)] pub struct Sx(H<(), 1>, H<(), 1>);\nimpl ::core::ops::Add for Sx { type Output = Sx; fn add(self, o: Sx) -> Sx { Sx(self.0 + o.0, self.1 + o.1) } }\npub fn run() -> Sx { ::core::iter::empty::<Sx>().sum() }",
             "#[derive(derive_more::Sum)] pub struct Sx { a: H<(), 1> }\nimpl ::core::ops::Add for Sx { type Output = Sx; fn add(self, o: Sx) -> Sx { Sx { a: self.a + o.a } } }"],
+    "Sum+": ["#[derive(derive_more::Sum)] pub struct Sx<T>(T, T);\nimpl<T: ::core::ops::Add<Output = T>> ::core::ops::Add for Sx<T> { type Output = Sx<T>; fn add(self, o: Sx<T>) -> Sx<T> { Sx(self.0 + o.0, self.1 + o.1) } }\npub fn run() -> Sx<H<(), 1>> { ::core::iter::empty::<Sx<H<(), 1>>>().sum() }"],
+    "Product+": ["#[derive(derive_more::Product)] pub struct Sx<T> { a: T }\nimpl<T: ::core::ops::Mul<Output = T>> ::core::ops::Mul for Sx<T> { type Output = Sx<T>; fn mul(self, o: Sx<T>) -> Sx<T> { Sx { a: self.a * o.a } } }\npub fn run() -> Sx<H<(), 1>> { ::core::iter::empty::<Sx<H<(), 1>>>().product() }"],
+    "DerefMut+": ["#[derive(derive_more::DerefMut)] pub struct Sx<'a, T: 'a, const N: usize>(H<&'a T, N>);\nimpl<'a, T: 'a, const N: usize> ::core::ops::Deref for Sx<'a, T, N> { type Target = H<&'a T, N>; fn deref(&self) -> &Self::Target { &self.0 } }"],
+    "IndexMut+": ["#[derive(derive_more::IndexMut)] pub struct Sx<T, const N: usize>(H<T, N>);\nimpl<T, const N: usize, I> ::core::ops::Index<I> for Sx<T, N> where H<T, N>: ::core::ops::Index<I> { type Output = <H<T, N> as ::core::ops::Index<I>>::Output; fn index(&self, i: I) -> &Self::Output { &self.0[i] } }"],
+    "Error+": ["#[derive(derive_more::Error)] #[derive(Debug)] pub struct Sx<T> { source: T, other: u8 }\nimpl<T> ::core::fmt::Display for Sx<T> { fn fmt(&self, f: &mut ::core::fmt::Formatter<'_>) -> ::core::fmt::Result { f.write_str(\"e\") } }",
+               "#[derive(derive_more::Error)] #[derive(Debug)] pub enum Sx<T, U> { Aa(T), B { source: U }, Cc }\nimpl<T, U> ::core::fmt::Display for Sx<T, U> { fn fmt(&self, f: &mut ::core::fmt::Formatter<'_>) -> ::core::fmt::Result { f.write_str(\"e\") } }"],
     "Product": ["#[derive(derive_more::Product)] pub struct Sx(H<(), 1>, H<(), 1>);\nimpl ::core::ops::Mul for Sx { type Output = Sx; fn mul(self, o: Sx) -> Sx { Sx(self.0 * o.0, self.1 * o.1) } }\npub fn run() -> Sx { ::core::iter::empty::<Sx>().product() }"],
     "DerefMut": ["#[derive(derive_more::DerefMut)] pub struct Sx(H<(), 1>);\nimpl ::core::ops::Deref for Sx { type Target = H<(), 1>; fn deref(&self) -> &H<(), 1> { &self.0 } }",
                  "#[derive(derive_more::DerefMut)] #[deref_mut(forward)] pub struct Sx(H<(), 1>);\nimpl ::core::ops::Deref for Sx { type Target = [u8; 1]; fn deref(&self) -> &[u8; 1] { &self.0 } }",
@@ -106,7 +112,7 @@ def usage_modules():
                 continue
             _USAGE.setdefault(m["derive"], []).append(c.module)
         for d, mods in EXTRA_USAGE.items():
-            _USAGE.setdefault(d, []).extend("#[allow(unused_imports)] use super::*;\n" + m for m in mods)
+            _USAGE.setdefault(d.rstrip("+"), []).extend("#[allow(unused_imports)] use super::*;\n" + m for m in mods)
         missing = [d for d in tab if not _USAGE.get(d)]
         if missing:
             raise MachineryError("no usage program for derives: %s" % missing)
@@ -137,7 +143,38 @@ def usage_crate(dirpath, feats, std, derives):
     return n
 
 
-def check_config(worker, feats, std, derives, do_tests, tests, clean=False):
+def trait_probe(worker, feats, std, derives, tdir):
+    """Which `derive_more::with_trait::<Name>` are usable in trait position in this configuration (set of names)."""
+    d = os.path.join(WORK, "c20t-%d" % worker)
+    shutil.rmtree(d, ignore_errors=True)
+    os.makedirs(os.path.join(d, "src"))
+    fl = list(feats) + (["std"] if std else [])
+    with open(os.path.join(d, "Cargo.toml"), "w") as f:
+        f.write('[package]\nname = "c20trait"\nversion = "0.0.0"\nedition = "2021"\n[workspace]\n[dependencies]\nderive_more = { path = "%s", default-features = false, features = [%s] }\n' % (
+            REPO, ", ".join('"%s"' % x for x in fl)))
+    shutil.copy(os.path.join(REPO, "Cargo.lock"), os.path.join(d, "Cargo.lock"))
+    names = [x["name"] for x in derives]
+    with open(os.path.join(d, "src", "lib.rs"), "w") as f:
+        f.write("#![allow(unused)]\n" + "".join("pub fn t%d<T: ?Sized + derive_more::with_trait::%s>() {}\n" % (k, n) for k, n in enumerate(names)))
+    p = cargo(["check", "--offline", "--message-format=json", "-q"], d, tdir)
+    bad = set()
+    for line in p.stdout.splitlines():
+        if not line.startswith("{"):
+            continue
+        m = json.loads(line)
+        if m.get("reason") != "compiler-message" or m["message"]["level"] != "error":
+            continue
+        code = (m["message"].get("code") or {}).get("code")
+        ln = next((sp["line_start"] for sp in m["message"]["spans"] if sp["is_primary"]), None)
+        # E0404 expected trait, found derive macro; E0405 cannot find trait; E0433/E0432 unresolved path.  E0107 (missing generic
+        # arguments) means the name IS a trait.
+        if ln is not None and code in ("E0404", "E0405", "E0433", "E0432", "E0412"):
+            bad.add(names[ln - 2])
+    shutil.rmtree(d, ignore_errors=True)
+    return {n for n in names if n not in bad}
+
+
+def check_config(worker, feats, std, derives, do_tests, tests, clean=False, trait_ref=None):
     """Returns list of (kind, detail) problems and number of cargo steps."""
     tdir = os.path.join(TARGET, "features-%d" % worker)
     fl = ",".join(feats)
@@ -204,6 +241,14 @@ def check_config(worker, feats, std, derives, do_tests, tests, clean=False):
     elif p.returncode != 0:
         problems.append(("usage crate does not build", last_error(p.stderr)))
     shutil.rmtree(udir, ignore_errors=True)
+    # 3c. names usable as traits through `derive_more::with_trait` are the same as under `full`
+    if trait_ref is not None:
+        got = trait_probe(worker, feats, std, derives, tdir)
+        steps += 1
+        for x in derives:
+            if x["feature"] in feats and (x["name"] in got) != (x["name"] in trait_ref):
+                problems.append(("`derive_more::with_trait::%s` is %s a trait in this configuration but %s under `full`" % (
+                    x["name"], "not" if x["name"] in trait_ref else "", "is" if x["name"] in trait_ref else "is not"), x["name"]))
     # 4. the repository's own tests for the enabled features
     if do_tests:
         for t, req in sorted(tests.items()):
@@ -247,13 +292,17 @@ def run(chk, tier):
                 configs.append(((a, b), std, False))
         for std in (True, False):
             configs.append((tuple(feats), std, True))
+    # reference for the trait-position probe: the `full` configuration
+    trait_ref = trait_probe(99, tuple(feats), True, derives, os.path.join(TARGET, "features-ref"))
+    if len(trait_ref) < 20:
+        raise MachineryError("trait-position reference under `full` looks wrong: %s" % sorted(trait_ref))
     P = 8
     chunks = [configs[i::P] for i in range(P)]
 
     def work(i):
         out = []
         for (fs, std, do_tests) in chunks[i]:
-            out.append(((fs, std), check_config(i, fs, std, derives, do_tests, tests, clean=thorough)))
+            out.append(((fs, std), check_config(i, fs, std, derives, do_tests, tests, clean=thorough, trait_ref=trait_ref)))
         return out
 
     with ThreadPoolExecutor(max_workers=P) as pool:
@@ -271,6 +320,7 @@ def run(chk, tier):
     chk.part("lattice", configurations=len(configs), singles=len(feats), pairs=(len(feats) * (len(feats) - 1) // 2 if thorough else 0), with_and_without_std=True,
              probe_items=len(derives) * 3 + len(HELPERS), repository_tests_run_for="singles and full (thorough)" if thorough else "none (quick)",
              steps=["cargo check -p derive_more-impl", "cargo check -p derive_more", "probe crate: unresolved imports == items of disabled features",
-                    "usage crate: every derive of the enabled features applied to C01's supported inputs type-checks", "cargo test --test <feature>"])
+                    "usage crate: every derive of the enabled features applied to C01's supported inputs type-checks",
+                    "trait probe: derive_more::with_trait::<Name> is usable as a trait iff it is under `full`", "cargo test --test <feature>"])
     chk.assumptions += ["which feature provides which helper type is transcribed from the README/doc (HELPERS table); derive -> feature comes from create_derive! in impl/src/lib.rs",
                         "`testing-helpers` is not a user-facing derive feature and is left out"]
